@@ -148,3 +148,40 @@ def fields(info):
         fs.append(("eos_magic", s["eos_bit"], 48, si, -1))
         fs.append(("stream_crc", s["bit_crc"], 32, si, -1))
     return fs
+
+
+# ------------------------------------------------------------------ spurious block-header candidates
+
+def magic_alphabet():
+    """A byte set whose bzip2 symbol map (16-bit range map + 16-bit maps of the used ranges) reads
+    0x3141 0x5926 0x5359 ... i.e. contains the 48-bit block-header pattern.  Every block of a text
+    over exactly this alphabet carries one spurious scanner candidate in its own header."""
+    def bits(v):
+        return [i for i in range(16) if v & (0x8000 >> i)]
+    groups = bits(0x3141)                  # ranges 2, 3, 7, 9, 15
+    maps = [0x5926, 0x5359, 0x8001, 0x0180, 0x4002]
+    out = []
+    for g, m in zip(groups, maps):
+        out += [16 * g + j for j in bits(m)]
+    return bytes(out)
+
+
+def magic_plain(n, seed, runs=False):
+    """n bytes over magic_alphabet() without any run of 4 equal bytes (a run-length count byte would
+    add byte values to the alphabet and destroy the pattern); every ~3000-byte window contains the
+    whole alphabet, so every block of a compressed version has the pattern in its symbol map."""
+    r = random.Random(seed)
+    al = magic_alphabet()
+    out = bytearray()
+    while len(out) < max(n, len(al)):
+        out += al
+        for _ in range(40):
+            if runs:
+                out += bytes([r.choice(al)]) * r.choice([1, 2, 3])
+            out += bytes(r.choices(al, k=r.randrange(1, 60)))
+    out = out[:max(n, len(al))]
+    # break runs of >= 4
+    for i in range(3, len(out)):
+        if out[i] == out[i - 1] == out[i - 2] == out[i - 3]:
+            out[i] = al[(al.index(out[i]) + 1) % len(al)]
+    return bytes(out)
